@@ -566,6 +566,11 @@ pub uninterp spec fn cow_deref_spec<'a, 'b, B: ?Sized + ToOwned>(s: &'b Cow<'a, 
 pub assume_specification<'a, 'b, B: ?Sized + ToOwned>[ <Cow<'a, B> as core::ops::Deref>::deref ](s: &'b Cow<'a, B>) -> (r: &'b B)
     ensures r == cow_deref_spec(s);
 
+// A-std: `impl AsRef<T> for Cow<'_, T> { fn as_ref(&self) -> &T { self } }` (not used by the current source; present so that a change
+// using it gets a verdict)
+pub assume_specification<'a, 'b, B: ?Sized + ToOwned>[ <Cow<'a, B> as core::convert::AsRef<B>>::as_ref ](s: &'b Cow<'a, B>) -> (r: &'b B)
+    ensures r == cow_deref_spec(s);
+
 pub broadcast axiom fn axiom_cow_str_deref<'a, 'b>(s: &'b Cow<'a, str>)
     ensures (#[trigger] cow_deref_spec::<str>(s))@ == s@;
 
